@@ -29,6 +29,10 @@ class RepeaterStorage:
             # store the newly created repeater
             self.__repeaters[found.id] = found
 
+        if found is None:
+            # unseen address and no auto-create: there is no record the patch could apply to
+            return None
+
         return self.save(rpt=found, patch=patch)
 
     def save(self, rpt: Repeater, patch: Dict[str, any] = {}) -> Repeater:
